@@ -909,6 +909,10 @@ def expand_temps (fn, known_locals):
   if total: _drop_dead(fn)
   return total + pre
 
+# calls that build something new from their arguments without changing them (they are not `pure`: the result has identity)
+NONMUTATING = {'enumerate', 'zip', 'sorted', 'list', 'set', 'dict', 'hex', 'chr', 'repr', 'reversed', 'bytearray', 'float', 'round', 'divmod', 'id', 'hash'}
+NONMUTATING_QUAL = {('array', 'array'), ('struct', 'pack'), ('struct', 'unpack'), ('struct', 'unpack_from'), ('struct', 'calcsize'), ('time', 'time')}
+
 def _touches (exprs, names):
   """does some call in exprs invoke a (non-pure) method on one of `names`, or pass one of them to a non-pure call?"""
   for e in exprs:
@@ -917,6 +921,8 @@ def _touches (exprs, names):
         f = n.func
         if isinstance(f, ast.Attribute) and isinstance(f.value, ast.Name) and f.value.id in names and f.attr not in PURE_METHODS and f.attr not in LOG_ANY_RECEIVER: return True
         if _impure_call_in([n]):
+          if isinstance(f, ast.Name) and f.id in NONMUTATING: continue
+          if isinstance(f, ast.Attribute) and isinstance(f.value, ast.Name) and (f.value.id, f.attr) in NONMUTATING_QUAL: continue
           for a in list(n.args) + [k.value for k in n.keywords]:
             if isinstance(a, ast.Name) and a.id in names: return True
   return False
@@ -1014,9 +1020,14 @@ def unroll_name_loops (fn, known_locals):
           if isinstance(b, list) and b and isinstance(b[0], ast.stmt): setattr(s, f, walk(b))
         if isinstance(s, ast.Try):
           for h in s.handlers: h.body = walk(h.body)
+      maps = None
       if isinstance(s, ast.For) and isinstance(s.target, ast.Name) and s.target.id not in known_locals and not s.orelse \
          and isinstance(s.iter, (ast.Tuple, ast.List)) and 0 < len(s.iter.elts) <= 40 and all(isinstance(e, ast.Constant) and isinstance(e.value, str) for e in s.iter.elts) \
          and any(isinstance(x, ast.Call) and isinstance(x.func, ast.Name) and x.func.id in ('getattr', 'setattr', 'hasattr') and len(x.args) >= 2 and isinstance(x.args[1], ast.Name) and x.args[1].id == s.target.id for b in s.body for x in ast.walk(b)):
+        maps = [{s.target.id: e} for e in s.iter.elts]
+      elif isinstance(s, ast.For) and not s.orelse:
+        maps = _table_loop_maps(s, out[-1] if out else None, known_locals, local_names(fn))
+      if maps is not None:
         # break (of this loop) cannot be unrolled structurally
         brk = False
         class B(ast.NodeVisitor):
@@ -1033,8 +1044,8 @@ def unroll_name_loops (fn, known_locals):
             for b in s.body:
               for x in ([b] + list(own_nodes(b))):
                 if isinstance(x, ast.Name) and isinstance(x.ctx, ast.Store) and x.id not in known_locals: stored.add(x.id)
-            for k, e in enumerate(s.iter.elts):
-              m = {s.target.id: e}
+            for k, m0 in enumerate(maps):
+              m = dict(m0)
               for nm in stored: m[nm] = "%s__%d" % (nm, k)
               cp = [_Subst(m).visit(copy.deepcopy(b)) for b in s.body]
               cp = [_FoldAttr().visit(b) for b in cp]
@@ -1057,18 +1068,78 @@ def unroll_name_loops (fn, known_locals):
   fn.body = walk(fn.body)
   return n_un
 
+def _bind_target (tgt, val, m, known_locals):
+  """bind the names of a (nested) for-target to the pieces of an expression; False when it cannot be done syntactically"""
+  if isinstance(tgt, ast.Name):
+    if tgt.id in known_locals: return False
+    m[tgt.id] = val; return True
+  if isinstance(tgt, (ast.Tuple, ast.List)) and isinstance(val, (ast.Tuple, ast.List)) and len(tgt.elts) == len(val.elts) \
+     and not any(isinstance(x, ast.Starred) for x in tgt.elts):
+    return all(_bind_target(t, v, m, known_locals) for t, v in zip(tgt.elts, val.elts))
+  return False
+
+def _always_leaves (body):
+  return bool(body) and isinstance(body[-1], (ast.Return, ast.Raise))
+
+def _table_loop_maps (s, prev, known_locals, fn_locals):
+  """`for <new names> in <literal table>` and `for <new names> in zip(SEQ, <literal table>)` where the statement before
+  the loop leaves the function when SEQ is shorter than the table: one substitution per row (a loop over a table that
+  was introduced for a run of look-alike statements)"""
+  def table (e):
+    return isinstance(e, (ast.Tuple, ast.List)) and 0 < len(e.elts) <= 16 and all(_pure_row(x) for x in e.elts)
+  def _pure_row (e, d=0):
+    if d > 4: return False
+    if isinstance(e, ast.Constant): return True
+    if isinstance(e, (ast.Tuple, ast.List)): return all(_pure_row(x, d + 1) for x in e.elts)
+    if isinstance(e, ast.Attribute): return _pure_row(e.value, d + 1)
+    return isinstance(e, ast.Name) and e.id not in fn_locals
+  it = s.iter
+  rows = None
+  if table(it) and not (all(isinstance(e, ast.Constant) for e in it.elts)):
+    rows = [e for e in it.elts]
+  elif isinstance(it, ast.Call) and isinstance(it.func, ast.Name) and it.func.id == 'zip' and len(it.args) == 2 and not it.keywords and table(it.args[1]) \
+       and _is_path(it.args[0]):
+    seq = it.args[0]; n = len(it.args[1].elts)
+    # the guard that makes SEQ[i] safe for every row
+    if not (isinstance(prev, ast.If) and not prev.orelse and _always_leaves(prev.body) and isinstance(prev.test, ast.Compare) and len(prev.test.ops) == 1
+            and isinstance(prev.test.ops[0], ast.Lt) and isinstance(prev.test.left, ast.Call) and isinstance(prev.test.left.func, ast.Name) and prev.test.left.func.id == 'len'
+            and len(prev.test.left.args) == 1 and ast.dump(prev.test.left.args[0]) == ast.dump(seq)
+            and isinstance(prev.test.comparators[0], ast.Constant) and isinstance(prev.test.comparators[0].value, int) and prev.test.comparators[0].value >= n):
+      return None
+    rows = [ast.Tuple(elts=[ast.Subscript(value=copy.deepcopy(seq), slice=ast.Constant(value=k), ctx=ast.Load()), r], ctx=ast.Load()) for k, r in enumerate(it.args[1].elts)]
+  if rows is None: return None
+  maps = []
+  for r in rows:
+    m = {}
+    if not _bind_target(s.target, r, m, known_locals): return None
+    maps.append(m)
+  # the bound names are read only
+  bound = set(maps[0])
+  for b in s.body:
+    for x in ast.walk(b):
+      if isinstance(x, ast.Name) and isinstance(x.ctx, (ast.Store, ast.Del)) and x.id in bound: return None
+  return maps
+
+def _is_path (e):
+  while isinstance(e, ast.Attribute): e = e.value
+  return isinstance(e, ast.Name)
+
 def _chain (first, rest):
   """first ; rest  where first may contain `return` (kept as return: control simply leaves the function)"""
   return first + rest
 
 # ---------------------------------------------------------------- N5 new literal constants
-def _literal (e, depth=0):
+def _literal (e, depth=0, roots=()):
   """is e a literal constant expression (numbers, strings, bytes, tuples of such, + - * | << and concatenation of literals)?"""
   if depth > 6: return False
   if isinstance(e, ast.Constant): return isinstance(e.value, (int, float, str, bytes, bool, type(None)))
-  if isinstance(e, ast.Tuple): return all(_literal(x, depth + 1) for x in e.elts)
+  if isinstance(e, ast.Tuple): return all(_literal(x, depth + 1, roots) for x in e.elts)
   if isinstance(e, ast.BinOp) and isinstance(e.op, (ast.Add, ast.Sub, ast.Mult, ast.BitOr, ast.BitAnd, ast.LShift, ast.RShift, ast.FloorDiv)): return _literal(e.left, depth + 1) and _literal(e.right, depth + 1)
   if isinstance(e, ast.UnaryOp) and isinstance(e.op, (ast.USub, ast.Invert)): return _literal(e.operand, depth + 1)
+  if roots and isinstance(e, ast.Attribute):
+    b = e
+    while isinstance(b, ast.Attribute): b = b.value
+    return isinstance(b, ast.Name) and b.id in roots
   return False
 
 def inline_new_constants (tree, inv):
@@ -1084,12 +1155,20 @@ def inline_new_constants (tree, inv):
       if s.targets[0].id not in known_mod and _literal(s.value): consts[s.targets[0].id] = s.value
   consts = dict((k, v) for k, v in consts.items() if counts.get(k) == 1)
   cconsts = {}
+  # module names bound by import statements only (a table of `pkt.lldp.X` rows is as constant as its module)
+  imported = set()
+  for s in tree.body:
+    if isinstance(s, (ast.Import, ast.ImportFrom)):
+      for a in s.names: imported.add((a.asname or a.name).split('.')[0])
+  for s in ast.walk(tree):
+    if isinstance(s, ast.Name) and isinstance(s.ctx, (ast.Store, ast.Del)) and s.id in imported: imported.discard(s.id)
   for c in tree.body:
     if isinstance(c, ast.ClassDef):
       known_c = set(inv.get('<class %s>' % c.name, ())) if ('<class %s>' % c.name) in inv else None
       if known_c is None: continue
       for s in c.body:
-        if isinstance(s, ast.Assign) and len(s.targets) == 1 and isinstance(s.targets[0], ast.Name) and s.targets[0].id not in known_c and _literal(s.value):
+        if isinstance(s, ast.Assign) and len(s.targets) == 1 and isinstance(s.targets[0], ast.Name) and s.targets[0].id not in known_c \
+           and (_literal(s.value) or (isinstance(s.value, ast.Tuple) and _literal(s.value, 0, imported))):
           cconsts[(c.name, s.targets[0].id)] = s.value
   if not consts and not cconsts: return 0
   class R(ast.NodeTransformer):
@@ -1102,6 +1181,12 @@ def inline_new_constants (tree, inv):
       nonlocal n
       if isinstance(node.ctx, ast.Load) and node.id in consts and node.id not in self.shadow[-1]:
         n += 1; return ast.copy_location(copy.deepcopy(consts[node.id]), node)
+      return node
+    def visit_Call (self, node):
+      self.generic_visit(node)
+      if isinstance(node.func, ast.Name) and node.func.id == 'len' and len(node.args) == 1 and not node.keywords and isinstance(node.args[0], ast.Tuple) \
+         and not any(isinstance(x, ast.Starred) for x in node.args[0].elts):
+        return ast.copy_location(ast.Constant(value=len(node.args[0].elts)), node)
       return node
     def visit_Attribute (self, node):
       nonlocal n
